@@ -32,8 +32,9 @@ pub fn check(tier: Tier) -> Check {
         streams: vec![
             Stream::new("module", tier.pick(64, 640), |ctx, idx| {
                 c08::history_scenario(ctx, idx, "C10", "module", Focus::Status, 0)
-            }),
-            Stream::new("node", tier.pick(288, 1500), |ctx, idx| contacts::scenario(ctx, idx, "C10", "node")),
+            })
+            .budget(tier.pick(900.0, 3000.0), tier.pick(64, 320)),
+            Stream::new("node", tier.pick(288, 1500), |ctx, idx| contacts::scenario(ctx, idx, "C10", "node")).budget(tier.pick(900.0, 3000.0), tier.pick(288, 750)),
         ],
         require: vec![
             ("status_comparisons", tier.pick(1_000_000, 50_000_000)),
